@@ -123,7 +123,10 @@ func genAtomCase(t *rapid.T) AtomCase {
 		cfg.WithState = rapid.IntRange(0, 3).Draw(t, "withstate") == 3
 		a := cfg.Plan(t, "first", 1)
 		b := cfg.Plan(t, "second", 1)
-		b.Seed = a.Seed // same seed => same plan id and same ids for objects at the same walk index
+		b.Seed = a.Seed // same seed => same plan id and same ids for objects at the same walk index (a re-submitted plan)
+		if rapid.Bool().Draw(t, "planidonly") {
+			b.IDBase = 1 << 20 // only the plan id collides (two different plans that got the same id)
+		}
 		c.First, c.Second = &a, &b
 	case "interleave":
 		c.Arm = genArm(t)
@@ -459,6 +462,11 @@ func (r *c14run) dup(c AtomCase) {
 			r.fail("dup:rows-changed", "row counts changed by the failed second Create: plan rows %+v -> %+v, all rows %+v -> %+v", rowsBefore, rowsAfter, totalBefore, totalAfter)
 			return
 		}
+	}
+	if c.Second.IDBase != c.First.IDBase {
+		res.Label("dup_plan_id_only")
+	} else {
+		res.Label("dup_all_ids")
 	}
 	if store.ObjectCount(*c.First) != store.ObjectCount(*c.Second) {
 		res.Label("dup_different_shape")
